@@ -2,10 +2,12 @@
 // Case file (one output line per input line):
 //   D <kd|lc|khc|khc2> <bucket> <dim> <n> c_0_0 .. c_(n-1)_(dim-1)   integer coordinates (real value = c)
 //        bucket 0 = default TreeConstruction(), else TreeConstruction(0,bucket)
+//        kind may carry a power-of-two coordinate scale, e.g. lc/8: real value = c/8, queries h/16, printed squared distances 16*64*d^2
 //   Q h_0 .. h_(dim-1)        query, coordinates in HALF units (real value = h/2)
 //   P <k> <w> h_0 ..          NearestNeighborModel prediction with tree and brute-force back-end (w=1: 1/distance weights)
 // All squared distances are printed as integers 16*d^2 (exact for these inputs).
 #include <cstdio>
+#include <cstdlib>
 #include <cmath>
 #include <fstream>
 #include <sstream>
@@ -63,15 +65,18 @@ using namespace shark;
 typedef DataView<Data<RealVector> const> CView;
 typedef DataView<Data<RealVector> > View;
 
-static long long sc(double d) { return std::llround(16.0 * d * d); }     // distance -> 16*d^2
-static long long sc2(double d2) { return std::llround(16.0 * d2); }      // squared distance -> 16*d^2
+// coordinate scale: kind "lc/8" means real value = c/8 (data) and h/16 (queries); a power of two, so everything stays exact.
+// Squared distances are printed in the scaled integer units: 16*S^2*d^2 (Euclidean metric), 16*S^4*d^2 (PolynomialKernel(2,1)).
+static double g_scale = 1.0, g_fac = 16.0;
+static long long sc(double d) { return std::llround(g_fac * d * d); }     // distance -> 16*S^2*d^2
+static long long sc2(double d2) { return std::llround(g_fac * d2); }      // squared distance -> 16*S^2*d^2
 
 static void dumpKD(KDTree<RealVector> const* t, std::ostream& out) {
 	if (t->isLeaf()) {
 		out << "L";   // real order: index(0) first
 		for (std::size_t i = 0; i < t->size(); ++i) out << (i ? "," : "") << t->index(i);
 	} else {
-		out << "N" << t->m_cutDim << ":" << std::llround(2.0 * t->threshold()) << "(";
+		out << "N" << t->m_cutDim << ":" << std::llround(2.0 * g_scale * t->threshold()) << "(";
 		dumpKD((KDTree<RealVector> const*)t->left(), out); out << ")(";
 		dumpKD((KDTree<RealVector> const*)t->right(), out); out << ")";
 	}
@@ -158,10 +163,13 @@ int main(int argc, char** argv) {
 			if (cmd == "D") {
 				w.reset(new World); rview.reset();
 				long bucket; is >> w->kind >> bucket >> w->dim >> w->n;
+				g_scale = 1.0;
+				if (w->kind.find('/') != std::string::npos) { g_scale = std::atof(w->kind.substr(w->kind.find('/') + 1).c_str()); w->kind = w->kind.substr(0, w->kind.find('/')); }
+				g_fac = 16.0 * g_scale * g_scale * (w->kind == "khc2" ? g_scale * g_scale : 1.0);
 				w->pts.assign(w->n, RealVector(w->dim));
 				std::vector<unsigned int> lab(w->n); std::vector<RealVector> rl(w->n, RealVector(2));
 				for (std::size_t i = 0; i < w->n; ++i) {
-					for (std::size_t d = 0; d < w->dim; ++d) { long c; is >> c; w->pts[i](d) = (double)c; }
+					for (std::size_t d = 0; d < w->dim; ++d) { long c; is >> c; w->pts[i](d) = (double)c / g_scale; }
 					lab[i] = (unsigned int)i; rl[i](0) = (double)((7 * i + 3) % 11); rl[i](1) = (double)(i % 3);
 				}
 				w->cls = createLabeledDataFromRange(w->pts, lab);
@@ -202,7 +210,7 @@ int main(int argc, char** argv) {
 					if (c17rec::calls.empty()) out << "-";
 				}
 			} else if (cmd == "Q") {
-				RealVector q(w->dim); for (std::size_t d = 0; d < w->dim; ++d) { long h; is >> h; q(d) = 0.5 * (double)h; }
+				RealVector q(w->dim); for (std::size_t d = 0; d < w->dim; ++d) { long h; is >> h; q(d) = 0.5 * (double)h / g_scale; }
 				out << "Q it=";
 				{
 					IterativeNNQuery<CView> query(w->tree.get(), *w->cview, q);
@@ -228,7 +236,7 @@ int main(int argc, char** argv) {
 				}
 			} else if (cmd == "P") {
 				std::size_t k; int wt; is >> k >> wt;
-				RealVector q(w->dim); for (std::size_t d = 0; d < w->dim; ++d) { long h; is >> h; q(d) = 0.5 * (double)h; }
+				RealVector q(w->dim); for (std::size_t d = 0; d < w->dim; ++d) { long h; is >> h; q(d) = 0.5 * (double)h / g_scale; }
 				TreeNearestNeighbors<RealVector, RealVector> tnn(w->reg, w->rtree.get());
 				SimpleNearestNeighbors<RealVector, RealVector> snn(w->reg, &w->lin);
 				NearestNeighborModel<RealVector, RealVector> mt(&tnn, (unsigned int)k), ms(&snn, (unsigned int)k);
@@ -245,7 +253,7 @@ int main(int argc, char** argv) {
 				}
 			} else if (cmd == "C") {
 				std::size_t k, nc; int wt; is >> k >> wt >> nc;
-				RealVector q(w->dim); for (std::size_t d = 0; d < w->dim; ++d) { long h; is >> h; q(d) = 0.5 * (double)h; }
+				RealVector q(w->dim); for (std::size_t d = 0; d < w->dim; ++d) { long h; is >> h; q(d) = 0.5 * (double)h / g_scale; }
 				std::vector<unsigned int> lab(w->n);
 				for (std::size_t i = 0; i < w->n; ++i) lab[i] = (unsigned int)((5 * i + 2) % nc);
 				LabeledData<RealVector, unsigned int> ds = createLabeledDataFromRange(w->pts, lab);
